@@ -69,6 +69,13 @@ EmitTable == (hdr # <<>> /\ cands = <<>>) =>
     PrintT(ToJson([hdr |-> hdr,
                    q   |-> [i \in DOMAIN AllM |-> QualityOutcome(hdr, AllM[i])],
                    acc |-> [i \in DOMAIN AllM |-> AcceptsOutcome(hdr, AllM[i]).v],
+                   nm  |-> [i \in DOMAIN AllM |-> Cardinality(Matching(hdr, AllM[i]))]]))
+(* the position table also says which of the whole row best_match / client_prefers pick (small rows only: the fold
+   over a 30-type row exhausts TLC's stack) *)
+EmitTableP == (hdr # <<>> /\ cands = <<>>) =>
+    PrintT(ToJson([hdr |-> hdr,
+                   q   |-> [i \in DOMAIN AllM |-> QualityOutcome(hdr, AllM[i])],
+                   acc |-> [i \in DOMAIN AllM |-> AcceptsOutcome(hdr, AllM[i]).v],
                    nm  |-> [i \in DOMAIN AllM |-> Cardinality(Matching(hdr, AllM[i]))],
                    best |-> BestOutcome(hdr, AllM), pref |-> PrefersOutcome(hdr, AllM)]))
 (* the order of the table columns, printed once *)
